@@ -92,9 +92,18 @@ def gen_frame_truth(rng, d, coord, cellkind, N, K, fmtstyle, origin_kind):
     if d == 2:
         raw[:, 2] = 0.0
     ptoks = [[fmt_num(v, fmtstyle) for v in row] for row in raw]
-    pf = np.array([[float(t) for t in row] for row in ptoks]).reshape(N, 3)
+    on_boundary = 0
+    if coord == "x" and not tri and N and rng.random() < 0.3:
+        # atoms sitting EXACTLY on a face of the box (the very token of the bound: what LAMMPS prints for an atom it has just re-wrapped
+        # onto xlo, or for a wall atom at xhi): they are inside the closed box and must come back unchanged
+        for _ in range(int(rng.integers(1, 4))):
+            i, k = int(rng.integers(0, N)), int(rng.integers(0, d))
+            ptoks[i][k] = box_tokens[k][int(rng.integers(0, 2))]
+            on_boundary += 1
+    pf =np.array([[float(t) for t in row] for row in ptoks]).reshape(N, 3)
     return {"d": d, "coord": coord, "tri": tri, "N": N, "types": types, "box_tokens": box_tokens, "boxf": boxf,
-            "rlo": rlo, "rhi": rhi, "L": Lf, "H": Hfull, "tilt": (fxy, fxz, fyz), "ptoks": ptoks, "pf": pf}
+            "rlo": rlo, "rhi": rhi, "L": Lf, "H": Hfull, "tilt": (fxy, fxz, fyz), "ptoks": ptoks, "pf": pf,
+            "on_boundary": on_boundary}
 
 
 def expected_positions(fr):
